@@ -39,15 +39,33 @@ var harnessFn = regexp.MustCompile(`(?m)^func (VerifH_\w+)\(\)`)
 // delayInstrument returns src with a delay point inserted in front of each listed line: the
 // Occ-th time control reaches the line, the goroutine sleeps for Ms milliseconds.
 func delayInstrument(src []byte, sites []gsx.DelaySite, tag string) []byte {
-	lines := strings.Split(string(src), "\n")
-	sort.Slice(sites, func(i, j int) bool { return sites[i].Line > sites[j].Line })
-	for i, d := range sites {
-		if d.Line < 1 || d.Line > len(lines) {
-			continue
+	// insertion offsets: right after a function body's brace, or at the start of a line
+	lineStart := []int{0}
+	for i, b := range src {
+		if b == '\n' {
+			lineStart = append(lineStart, i+1)
 		}
-		stmt := fmt.Sprintf("vfDelayPoint%s(%d, %d, %d)", tag, i, d.Occ, d.Ms)
-		lines = append(lines[:d.Line-1], append([]string{stmt}, lines[d.Line-1:]...)...)
 	}
+	type ins struct {
+		off  int
+		text string
+	}
+	var all []ins
+	for i, d := range sites {
+		call := fmt.Sprintf("vfDelayPoint%s(%d, %d, %d)", tag, i, d.Occ, d.Ms)
+		switch {
+		case d.Off > 0 && d.Off <= len(src):
+			all = append(all, ins{d.Off, " " + call + "; "})
+		case d.Line >= 1 && d.Line <= len(lineStart):
+			all = append(all, ins{lineStart[d.Line-1], call + "\n"})
+		}
+	}
+	sort.Slice(all, func(i, j int) bool { return all[i].off > all[j].off })
+	out := string(src)
+	for _, in := range all {
+		out = out[:in.off] + in.text + out[in.off:]
+	}
+	lines := strings.Split(out, "\n")
 	for i, l := range lines {
 		if pkgClause.MatchString(l) {
 			imp := fmt.Sprintf("import vftime%s \"time\"; import vfatomic%s \"sync/atomic\"", tag, tag)
@@ -124,11 +142,11 @@ func materializeDelays(dir string, delays []gsx.DelaySite) (string, error) {
 	for d, names := range byPkg {
 		sort.Strings(names)
 		var sb strings.Builder
-		fmt.Fprintf(&sb, "package %s\n\nimport (\n\t\"os\"\n\t\"testing\"\n)\n\nfunc TestVerifReplay(t *testing.T) {\n\th := map[string]func(){\n", pkgName[d])
+		fmt.Fprintf(&sb, "package %s\n\nimport (\n\t\"os\"\n\t\"testing\"\n\t\"time\"\n)\n\nfunc TestVerifReplay(t *testing.T) {\n\th := map[string]func(){\n", pkgName[d])
 		for _, n := range names {
 			fmt.Fprintf(&sb, "\t\t%q: %s,\n", n, n)
 		}
-		sb.WriteString("\t}\n\tf := h[os.Getenv(\"VERIF_HARNESS\")]\n\tif f == nil {\n\t\tt.Fatal(\"VERIF-REPLAY: unknown harness\")\n\t}\n\tdefer func() {\n\t\tif r := recover(); r != nil {\n\t\t\tif _, ok := r.(vfAssumeFailed); ok {\n\t\t\t\tt.Skip(\"VERIF-REPLAY: assumption failed (spurious)\")\n\t\t\t}\n\t\t\tpanic(r)\n\t\t}\n\t}()\n\tn := 0\n\tfor _, c := range os.Getenv(\"VERIF_REPEAT\") {\n\t\tn = n*10 + int(c-'0')\n\t}\n\tif n < 1 {\n\t\tn = 1\n\t}\n\tfor i := 0; i < n; i++ {\n\t\tvfReset()\n\t\tf()\n\t}\n}\n")
+		sb.WriteString("\t}\n\tf := h[os.Getenv(\"VERIF_HARNESS\")]\n\tif f == nil {\n\t\tt.Fatal(\"VERIF-REPLAY: unknown harness\")\n\t}\n\tdefer func() {\n\t\tif r := recover(); r != nil {\n\t\t\tif _, ok := r.(vfAssumeFailed); ok {\n\t\t\t\tt.Skip(\"VERIF-REPLAY: assumption failed (spurious)\")\n\t\t\t}\n\t\t\tpanic(r)\n\t\t}\n\t}()\n\tn := 0\n\tfor _, c := range os.Getenv(\"VERIF_REPEAT\") {\n\t\tn = n*10 + int(c-'0')\n\t}\n\tif n < 1 {\n\t\tn = 1\n\t}\n\tstart := time.Now()\n\tfor i := 0; i < n; i++ {\n\t\tif i > 0 && time.Since(start) > 30*time.Second {\n\t\t\tbreak // repetitions must never run into the hang limit\n\t\t}\n\t\tvfReset()\n\t\tf()\n\t}\n}\n")
 		f := filepath.Join(dir, "ov", "test_"+strings.ReplaceAll(strings.TrimPrefix(d, repoDir), "/", "_")+"_test.go")
 		if err := os.WriteFile(f, []byte(sb.String()), 0o644); err != nil {
 			return "", err
@@ -234,7 +252,7 @@ func replayViolation(rel string, v *gsx.Violation, scratch string, timeout time.
 // repeatFor: a violation that needs context switches chosen by the explorer cannot be forced
 // on the native scheduler; the native replay runs the harness repeatedly instead.
 func repeatFor(v *gsx.Violation) int {
-	if v.Preempts > 0 {
+	if v.Preempts > 0 || len(v.Delays) > 0 {
 		return 600
 	}
 	return 1
